@@ -656,14 +656,16 @@ RecvSettings(ep, f) ==
            strict == [i \in 1..Len(frame) |-> <<frame[i][1], frame[i][2]>>]
            asBuilt == [i \in 1..Len(a.ch) |-> <<a.ch[i][1], a.ch[i][3]>>]
            ht == ChangeOf(a.ch, 1)
-           e0 == [c1.ep EXCEPT !.ls = a.S, !.lsF = IF @ = <<>> THEN @ ELSE Tail(@),
-                               !.decMax = IF ht = None THEN @ ELSE ht[1][3]]
+           e0 == [c1.ep EXCEPT !.ls = a.S, !.lsF = IF @ = <<>> THEN @ ELSE Tail(@)]
            e1 == IF strict # asBuilt THEN Mark(e0, "ack_per_key") ELSE e0
            iws == ChangeOf(a.ch, 4)
            d == IF iws = None THEN [ep |-> e1, ok |-> TRUE] ELSE ApplyInDelta(e1, e1.sord, iws[1][3] - iws[1][2][1])
            hl == ChangeOf(a.ch, 6)
            mf == ChangeOf(a.ch, 5)
-           e2 == [d.ep EXCEPT !.hdrCap = IF hl = None THEN @ ELSE hl[1][3], !.mif = IF mf = None THEN @ ELSE mf[1][3]]
+           \* (in the code's order: windows first -- a window overflow leaves the three limits below unapplied --, then
+           \* header-list cap, frame-size limit, decoder table size)
+           e2 == [d.ep EXCEPT !.hdrCap = IF hl = None THEN @ ELSE hl[1][3], !.mif = IF mf = None THEN @ ELSE mf[1][3],
+                              !.decMax = IF ht = None THEN @ ELSE ht[1][3]]
        IN IF ~d.ok THEN RR(d.ep, FCE, <<>>)
           ELSE RR(e2, OK, <<[t |-> "SAck", ch |-> a.ch]>>)
   ELSE LET fs == Collapse(f.s)            \* the frame parser keeps one value per identifier (the last), in first-seen order
